@@ -1,40 +1,70 @@
-"""PROTOTYPE C11: output independent of workers, schedule, hash seed, creation order, siblings; in-flight <= max-workers."""
+"""C11: results do not depend on scheduling, worker count, hash seed, file creation order or sibling files; in-flight files <= --max-workers.
+
+Every execution is one real CLI process (vf.cli_boot, so PYTHONHASHSEED and the switch interval are real) with
+  H-file : in-flight counter under the monitor's lock around BaseCodemod._process_file, seeded per-file delays before the work item,
+           begin/end sequence = schedule signature
+  H-ctx  : invariant at a hook - the context aggregates are mutated only by the coordinating thread
+  H-fp   : (thorough) sys.monitoring LINE-event yield injection inside repository code + sys.setswitchinterval(1e-6)
+Oracle: all normalised (report, tree) pairs of one group are equal; max in-flight <= w; run(D)|f == run({f})|f for sibling-independent codemods."""
 import base64, collections, copy, hashlib, json, os, random, shutil, subprocess, sys, tempfile, time
 from vf import env, blackbox as BB
-from vf.runner import Violation, load_known
+from vf.runner import Violation, finish, tier_seed
 
-def project(rnd, n):
+FF_CODEMODS = ["pixee:python/use-set-literal", "pixee:python/invert-boolean-check", "pixee:python/unused-imports", "pixee:python/use-generator", "pixee:python/fix-empty-sequence-comparison", "pixee:python/remove-unnecessary-f-str"]
+FF_SEMGREP = ["pixee:python/secure-random", "pixee:python/requests-verify"]
+
+def ff_project(rnd, n):
     files = {}
     for i in range(n):
-        body = [f"import os\nx{i} = set([{i}])\n", f"def f{i}(a, b):\n    if not a == b:\n        return {i}\n    return 0\n", f"import random\nv{i} = random.random()\n", f"y{i} = {i}\n"][i % 4]
+        body = [f"import os\nx{i} = set([{i}])\n", f"def f{i}(a, b):\n    if not a == b:\n        return {i}\n    return 0\n", f"import random\nv{i} = random.random()\n", f"y{i} = {i}\n",
+                f"t{i} = any([z > {i} for z in range(9)])\n", f"import requests\nr{i} = requests.get('u{i}', verify=False)\n", f"s{i} = f'plain {i}'\nif s{i} != '':\n    pass\n"][i % 7]
         files[f"pkg{i % 3}/m{i:02d}.py"] = body.encode()
     return files
 
-SONAR = lambda files: json.dumps({"issues": [{"rule": "python:S2245", "status": "OPEN", "component": "proj:" + p, "textRange": {"startLine": 2, "endLine": 2, "startOffset": 5 + len(p.split('/m')[1][:2]) - 2, "endOffset": 5 + len(p.split('/m')[1][:2]) - 2 + 15}} for p in sorted(files) if b"random.random()" in files[p]]})
-def sarif(files):
-    res = []
-    for p in sorted(files):
-        if b"random.random()" in files[p]:
-            pass
-    return json.dumps({"runs": [{"tool": {"driver": {"name": "Semgrep OSS"}}, "results": []}]})
+URL = 'import requests\nfrom flask import Flask, request\napp = Flask(__name__)\n@app.route("/e")\ndef example():\n    url = request.args["url"]\n    requests.get(url)\n'
+RND = "import random\nv = random.random()\n"
+COOKIE = 'from django.shortcuts import render\ndef index(request, template):\n    response = render(request, template)\n    response.set_cookie("name", "value")\n    return response\n'
+def sast_project(rnd, n):
+    files = {}; issues = []; hotspots = []; sarif = []; dd = []
+    for i in range(n):
+        rel = f"app{i % 2}/s{i:02d}.py"; kind = i % 3
+        if kind == 0:
+            files[rel] = URL.encode()
+            issues.append({"key": f"I{i}", "rule": "pythonsecurity:S5144", "status": "OPEN", "component": "proj:" + rel, "textRange": {"startLine": 7, "endLine": 7, "startOffset": 4, "endOffset": 21}})
+            sarif.append({"ruleId": "python.django.security.injection.ssrf.ssrf-injection-requests.ssrf-injection-requests", "message": {"text": "m"},
+                          "locations": [{"physicalLocation": {"artifactLocation": {"uri": rel}, "region": {"startLine": 7, "endLine": 7, "startColumn": 5, "endColumn": 22}}}]})
+        elif kind == 1:
+            files[rel] = RND.encode()
+            hotspots.append({"key": f"H{i}", "rule": "python:S2245", "status": "TO_REVIEW", "component": "proj:" + rel, "textRange": {"startLine": 2, "endLine": 2, "startOffset": 4, "endOffset": 19}})
+        else:
+            files[rel] = COOKIE.encode()
+            sarif.append({"ruleId": "python.django.security.audit.secure-cookies.django-secure-set-cookie", "message": {"text": "m"},
+                          "locations": [{"physicalLocation": {"artifactLocation": {"uri": rel}, "region": {"startLine": 4, "endLine": 4, "startColumn": 5, "endColumn": 41}}}]})
+            dd.append({"id": 500 + i, "title": "python.django.security.audit.secure-cookies.django-secure-set-cookie", "file_path": rel, "line": 4})
+    res = {"issues.json": json.dumps({"issues": issues}), "hotspots.json": json.dumps({"hotspots": hotspots}),
+           "semgrep.sarif": json.dumps({"runs": [{"tool": {"driver": {"name": "Semgrep OSS"}}, "results": sarif}]}), "dd.json": json.dumps({"results": dd})}
+    return files, res
 
 def run_one(case):
     d = tempfile.mkdtemp(prefix="vf_c11_"); proj = os.path.join(d, "proj"); os.makedirs(proj)
-    order = list(case["files"]); random.Random(case["order_seed"]).shuffle(order)
+    order = sorted(case["files"]); random.Random(case["order_seed"]).shuffle(order)
     for rel in order:
         p = os.path.join(proj, rel); os.makedirs(os.path.dirname(p), exist_ok=True); open(p, "wb").write(case["files"][rel])
-    open(os.path.join(d, "sonar.json"), "w").write(SONAR(case["files"]))
+    for name, text in (case.get("result_files") or {}).items(): open(os.path.join(d, name), "w").write(text)
     argv = [proj, "--output", os.path.join(d, "out.json"), "--max-workers", str(case["w"])] + [a.replace("{dir}", d) for a in case["argv"]]
-    e = env.child_env({"PYTHONHASHSEED": str(case["hashseed"])}, scratch_home=os.path.join(d, "home")); os.makedirs(e["HOME"])
-    mon = {"snap": False, "pipe": False, "write": False, "dep": False, "sg": False, "delays": {"seed": case["delay_seed"], "max_ms": 6}}
+    e = env.child_env({"PYTHONHASHSEED": str(case["hashseed"])}, scratch_home=os.path.join(d, "home")); os.makedirs(e["HOME"]); e["TMPDIR"] = os.path.join(d, "tmp"); os.makedirs(e["TMPDIR"])
+    mon = {"snap": False, "pipe": False, "write": False, "dep": False, "sg": False, "delays": {"seed": case["delay_seed"], "max_ms": case.get("max_ms", 6)}}
+    if case.get("yield"): mon["yield"] = case["yield"]
     try:
-        r = subprocess.run([env.PY, "-m", "vf.cli_boot", os.path.join(d, "trace.json"), json.dumps(mon), proj, "--"] + argv, env=e, capture_output=True, text=True, timeout=600)
+        r = subprocess.run([env.PY, "-m", "vf.cli_boot", os.path.join(d, "trace.json"), json.dumps(mon), proj, "--"] + argv, env=e, capture_output=True, text=True, timeout=900)
         tr = json.load(open(os.path.join(d, "trace.json"))); rep = json.load(open(os.path.join(d, "out.json")))
         tree = {}
         for dp, dn, fn in os.walk(proj):
             for f in fn:
-                p = os.path.join(dp, f); tree[os.path.relpath(p, proj)] = hashlib.sha1(open(p, "rb").read()).hexdigest()
+                p = os.path.join(dp, f); tree[os.path.relpath(p, proj)] = base64.b64encode(open(p, "rb").read()).decode()
         out = {"status": "ok", "rc": r.returncode, "trace": tr, "report": rep, "tree": tree, "proj": proj}
+    except subprocess.TimeoutExpired:
+        out = {"status": "timeout"}
     except Exception as ex:
         out = {"status": "error", "error": repr(ex)[:300]}
     shutil.rmtree(d, ignore_errors=True)
@@ -44,45 +74,126 @@ def norm(rep, proj):
     r = copy.deepcopy(rep); r["run"]["elapsed"] = 0; r["run"]["directory"] = ""; r["run"]["commandLine"] = ""
     return json.dumps(r, sort_keys=True).replace(proj, "P")
 
+def per_file(rep, tree, rel):
+    """what the run did to one file: final bytes + every changeset entry naming it, per codemod, in result order"""
+    return {"bytes": tree.get(rel), "changes": [(res["codemod"], cs["diff"], [(c["lineNumber"], c["description"]) for c in cs["changes"]]) for res in rep["results"] for cs in res["changeset"] if cs["path"] == rel]}
+
+def plan(tier, seed):
+    rnd = random.Random(f"C11:{seed}"); groups = []
+    quick = tier == "quick"
+    for g in range(2 if quick else 10):
+        n = rnd.choice((14, 21, 28) if quick else (14, 28, 42, 60))
+        files = ff_project(rnd, n)
+        cms = list(FF_CODEMODS) + ([rnd.choice(FF_SEMGREP)] if (g % 2 == 0) else [])
+        rnd.shuffle(cms)
+        groups.append({"mode": "find-and-fix", "files": files, "result_files": {}, "argv": ["--codemod-include", ",".join(cms)], "sibling_probe": sorted(files)[:: max(1, n // 3)][:3], "codemods": cms})
+        sfiles, res = sast_project(rnd, rnd.choice((9, 12, 18)))
+        groups.append({"mode": "sast", "files": sfiles, "result_files": res, "argv": ["--sonar-issues-json", "{dir}/issues.json", "--sonar-hotspots-json", "{dir}/hotspots.json", "--sarif", "{dir}/semgrep.sarif", "--defectdojo-findings-json", "{dir}/dd.json"], "sibling_probe": []})
+    cases = []
+    for gi, G in enumerate(groups):
+        k = (6 if quick else 14)
+        ws = [1, 2, 4, 16]
+        for j in range(k):
+            w = ws[j % 4] if j < 4 else rnd.choice(ws)
+            c = {"group": gi, "kind": "perturbed", "mode": G["mode"], "files": G["files"], "result_files": G["result_files"], "argv": G["argv"], "w": w, "delay_seed": rnd.randint(0, 10**6),
+                 "hashseed": [0, 1, 2, 3, 4, "random"][j % 6] if j < 6 else rnd.choice((0, 1, 2, 3, 4)), "order_seed": rnd.randint(0, 10**6)}
+            if not quick and j % 5 == 4 and G["mode"] == "find-and-fix" and len(G["files"]) <= 28: c["yield"] = {"seed": rnd.randint(0, 10**6), "p": 0.03}
+            cases.append(c)
+        for rel in G["sibling_probe"]:
+            cases.append({"group": gi, "kind": "single-file", "rel": rel, "mode": G["mode"], "files": {rel: G["files"][rel]}, "result_files": {}, "argv": G["argv"], "w": 1, "delay_seed": 0, "hashseed": 0, "order_seed": 0})
+    return groups, cases
+
+def judge_group(gi, G, items):
+    """items: list of (case, result) with status ok"""
+    viols = []; info = {"sigs": set(), "overlap": 0, "n": 0, "max_inflight": collections.Counter()}
+    outs = collections.defaultdict(list); ref = None
+    for c, r in items:
+        if c["kind"] != "perturbed": continue
+        info["n"] += 1
+        ev = [e for e in r["trace"]["events"] if e["k"] in ("file_begin", "file_end")]
+        info["sigs"].add(hashlib.sha1(json.dumps([(e["k"], os.path.basename(e["path"]), e["cm"]) for e in ev]).encode()).hexdigest())
+        mx = max((e["inflight"] for e in ev if e["k"] == "file_begin"), default=0)
+        info["max_inflight"][f"w={c['w']}:max={mx}"] += 1
+        if mx > 1: info["overlap"] += 1
+        if mx > c["w"]:
+            viols.append(Violation("C11", "max-workers-exceeded", f"{mx} files in flight with --max-workers {c['w']}", {"w": c["w"], "max_inflight": mx, "mode": c["mode"], "n_files": len(c["files"])}, jobs=[strip(c)]))
+        off = [e for e in r["trace"]["events"] if e["k"] == "ctx_mut" and not e["main"]]
+        if off: viols.append(Violation("C11", "aggregates-mutated-off-coordinating-thread", f"{off[0]['method']} called from a worker thread", {"event": off[0]}, jobs=[strip(c)]))
+        if r["rc"] != 0:
+            viols.append(Violation("C11", f"run-failed/{c['mode']}", f"rc={r['rc']}", {"w": c["w"], "hashseed": c["hashseed"]}, jobs=[strip(c)])); continue
+        sig = hashlib.sha1((norm(r["report"], r["proj"]) + json.dumps(r["tree"], sort_keys=True)).encode()).hexdigest()
+        outs[sig].append((c, r))
+        if ref is None: ref = (c, r)
+    if len(outs) > 1:
+        classes = list(outs.values())
+        hs = [sorted({str(c["hashseed"]) for c, _ in cl}) for cl in classes]
+        disjoint_hash = not any(set(a) & set(b) for k, a in enumerate(hs) for b in hs[k + 1:])
+        ws_ = [sorted({c["w"] for c, _ in cl}) for cl in classes]
+        (c1, r1), (c2, r2) = classes[0][0], classes[1][0]
+        tree_diff = sorted(k for k in set(r1["tree"]) | set(r2["tree"]) if r1["tree"].get(k) != r2["tree"].get(k))
+        o1 = [x["codemod"] for x in r1["report"]["results"]]; o2 = [x["codemod"] for x in r2["report"]["results"]]
+        what = "tree differs: " + str(tree_diff[:4]) if tree_diff else ("results[] order differs" if o1 != o2 and sorted(o1) == sorted(o2) else "report differs")
+        key = ("hashseed-dependent-output" if disjoint_hash else "nondeterministic-output") + "/" + G["mode"]
+        viols.append(Violation("C11", key, f"{len(outs)} distinct outputs for one (project, argv): {what}; hash seeds per output {hs}, workers per output {ws_}",
+                               {"mode": G["mode"], "hashseeds_by_output": hs, "workers_by_output": ws_, "tree_diff": tree_diff, "result_order_1": o1[:12], "result_order_2": o2[:12]}, jobs=[strip(c1), strip(c2)]))
+    # sibling independence
+    sib = 0
+    if ref is not None:
+        for c, r in items:
+            if c["kind"] != "single-file" or r["rc"] != 0: continue
+            sib += 1
+            a = per_file(ref[1]["report"], ref[1]["tree"], c["rel"]); b = per_file(r["report"], r["tree"], c["rel"])
+            if a != b:
+                cm = next((x[0] for x, y in zip(a["changes"] + [(None,)], b["changes"] + [(None,)]) if x != y), "?")
+                viols.append(Violation("C11", f"sibling-dependent/{str(cm).split('/')[-1]}", f"{c['rel']}: outcome with siblings differs from outcome alone", {"file": c["rel"], "with_siblings": a, "alone": b}, jobs=[strip(ref[0]), strip(c)]))
+    info["sibling_checked"] = sib
+    return viols, info
+
+def strip(c):
+    d = dict(c); d["files"] = {k: base64.b64encode(v).decode() for k, v in c["files"].items()}; return d
+
 def main():
-    tier = os.environ.get("VERIF_TIER") or (sys.argv[sys.argv.index("--tier") + 1] if "--tier" in sys.argv else "quick")
-    seed = int(os.environ.get("VERIF_SEED", "0")); rnd = random.Random(f"C11:{seed}"); t0 = time.time()
-    groups = []
-    ff = ["--codemod-include", "pixee:python/use-set-literal,pixee:python/invert-boolean-check,pixee:python/unused-imports,pixee:python/secure-random"]
-    sast = ["--sonar-issues-json", "{dir}/sonar.json"]
-    for g in range(2 if tier == "quick" else 12):
-        files = project(rnd, rnd.choice((16, 24, 40)))
-        for mode, argv in (("find-and-fix", ff), ("sast", sast)):
-            cases = []
-            for k in range(6 if tier == "quick" else 16):
-                cases.append({"files": files, "argv": argv, "w": rnd.choice((1, 2, 4, 16)), "delay_seed": rnd.randint(0, 10**6), "hashseed": rnd.choice((0, 1, 2, 3, 4)), "order_seed": rnd.randint(0, 10**6), "mode": mode})
-            groups.append(cases)
-    flat = [c for g in groups for c in g]
-    res = BB.pmap(run_one, flat, workers=7)
-    viols = collections.defaultdict(list); sigs = set(); overlapped = 0; n = 0; i = 0
-    for g in groups:
-        outs = collections.defaultdict(list)
-        for c in g:
-            r = res[i]; i += 1
-            if r["status"] != "ok" or r["rc"] != 0: continue
-            n += 1
-            ev = [e for e in r["trace"]["events"] if e["k"] in ("file_begin", "file_end")]
-            sigs.add(hashlib.sha1(json.dumps([(e["k"], os.path.basename(e["path"]), e["cm"]) for e in ev]).encode()).hexdigest())
-            mx = max((e["inflight"] for e in ev if e["k"] == "file_begin"), default=0)
-            if mx > 1: overlapped += 1
-            if mx > c["w"]: viols["max-workers-ignored"].append({"w": c["w"], "max_inflight": mx})
-            if not all(e["main"] for e in r["trace"]["events"] if e["k"] == "ctx_mut"): viols["aggregates-mutated-off-main-thread"].append({})
-            outs[hashlib.sha1((norm(r["report"], r["proj"]) + json.dumps(r["tree"], sort_keys=True)).encode()).hexdigest()].append(c)
-        if len(outs) > 1:
-            hs = [sorted({c["hashseed"] for c in cs}) for cs in outs.values()]
-            only_hash = all(len(set(h)) >= 1 for h in hs) and not any(set(a) & set(b) for k, a in enumerate(hs) for b in hs[k + 1:])
-            viols["hashseed-collection-order" if only_hash else "nondeterministic-output"].append({"mode": g[0]["mode"], "hashseeds_by_output": hs})
-    known, _ = load_known(); new = 0
-    for k, v in sorted(viols.items()):
-        if ("C11", k) in known: print(f"KNOWN-FINDING: property=C11 {k} ({len(v)})")
-        else: new += 1; print(f"VIOLATION property=C11 replay=- key={k} instances={len(v)} witness={json.dumps(v[0])[:200]}")
-    print(f"C11 {tier}: {'violated' if new else 'held'}; executions={n} distinct_schedule_signatures={len(sigs)} executions_with_overlap={overlapped} wall={round(time.time()-t0,1)}s")
-    return 1 if new else 0
+    tier, seed = tier_seed(); t0 = time.time()
+    groups, cases = plan(tier, seed)
+    res = BB.pmap(run_one, cases, workers=max(2, int(os.environ.get("VF_WORKERS", "14")) // 2))
+    by = collections.defaultdict(list); inconcl = 0; counters = collections.Counter()
+    for c, r in zip(cases, res):
+        if r["status"] != "ok": inconcl += 1; continue
+        for k, n in (r["trace"].get("counters") or {}).items(): counters[k] += n
+        by[c["group"]].append((c, r))
+    viols = []; sigs = set(); overlap = 0; n = 0; hist = collections.Counter(); nontrivial = set(); sib = 0; samples = []; perturb = collections.Counter()
+    for gi, G in enumerate(groups):
+        v, info = judge_group(gi, G, by.get(gi, []))
+        viols += v; sigs |= info["sigs"]; overlap += info["overlap"]; n += info["n"]; hist.update(info["max_inflight"]); sib += info["sibling_checked"]
+        for c, r in by.get(gi, []):
+            if c["kind"] == "perturbed":
+                nontrivial.add((gi, c["w"], c["delay_seed"], str(c["hashseed"]), c["order_seed"], bool(c.get("yield"))))
+                perturb["hashseed=" + str(c["hashseed"])] += 1; perturb["w=" + str(c["w"])] += 1
+                if c.get("yield"): perturb["line-yield-injection"] += 1
+        if by.get(gi) and len(samples) < 3:
+            c, r = by[gi][0]
+            ev = [e for e in r["trace"]["events"] if e["k"] in ("file_begin", "file_end")][:12]
+            samples.append({"mode": c["mode"], "n_files": len(c["files"]), "argv": c["argv"], "w": c["w"], "hashseed": c["hashseed"], "delay_seed": c["delay_seed"], "order_seed": c["order_seed"],
+                            "schedule_prefix": [(e["k"], os.path.basename(e["path"]), e.get("inflight")) for e in ev], "results_order": [x["codemod"] for x in r["report"]["results"]][:8]})
+    return finish("C11", "exploration", tier, seed, t0, evaluations=n + sib, nontrivial=nontrivial, violations=viols, min_nontrivial=16, counters=counters, deciding_counters=("process_file", "ctx_add_changesets"),
+                  inconclusive_cases=inconcl, samples=samples, module=__name__,
+                  stats={"distinct_schedule_signatures": len(sigs), "executions_with_overlapping_work_items": overlap, "max_inflight_by_workers": dict(hist), "sibling_independence_probes": sib, "perturbations": dict(perturb)},
+                  required={"executions in which >=2 work items overlapped": overlap, "distinct schedule signatures (>=4)": 1 if len(sigs) >= 4 else 0, "sibling probes": sib},
+                  rule="groups of executions of one (project, argv) under different worker counts {1,2,4,16}, seeded per-file delays, hash seeds {0..4, random}, file creation orders (and LINE-event yield injection in the thorough tier), find-and-fix and SAST mode (Sonar issues+hotspots, Semgrep SARIF, DefectDojo together); non-trivial = a perturbed execution completed; distinct by (group, w, delay seed, hash seed, creation order)",
+                  assumptions=["CPython's GIL bounds the interleavings that exist; delays are injected only at the per-file work-item boundary and (thorough) at statement starts inside repository code", "output normalisation drops run.elapsed, run.directory and run.commandLine only"])
+
+def replay(art):
+    out = []
+    cases = []
+    for j in art.get("jobs") or []:
+        c = dict(j); c["files"] = {k: base64.b64decode(v) for k, v in j["files"].items()}; cases.append(c)
+    if not cases: return out
+    res = [run_one(c) for c in cases]
+    items = [(c, r) for c, r in zip(cases, res) if r["status"] == "ok"]
+    G = {"mode": cases[0]["mode"]}
+    for c in cases: c.setdefault("group", 0)
+    v, _ = judge_group(0, G, items)
+    return v
 
 if __name__ == "__main__":
     sys.exit(main())
